@@ -1047,8 +1047,8 @@ class Interp:
                 if d.get('length'):
                     return str(len(elems))
                 if d['op'] == '#':
-                    pat = self.expand_one(d['pattern'])
-                    return [self.remove_prefix(e, pat) for e in elems]
+                    pat, quoted = self.pattern_value(d['pattern'])
+                    return [self.remove_prefix(e, pat, quoted) for e in elems]
                 if d['op'] is not None:
                     raise Unsupported('operator %s on array' % d['op'])
                 return elems
@@ -1085,11 +1085,11 @@ class Interp:
         if op == '##':
             return self.remove_longest_prefix(base, d['pattern'])
         if op == '%':
-            pat = self.expand_one(d['pattern'])
-            return self.remove_suffix(base, pat)
+            pat, quoted = self.pattern_value(d['pattern'])
+            return self.remove_suffix(base, pat, quoted)
         if op == '#':
-            pat = self.expand_one(d['pattern'])
-            return self.remove_prefix(base, pat)
+            pat, quoted = self.pattern_value(d['pattern'])
+            return self.remove_prefix(base, pat, quoted)
         raise Unsupported('parameter operator %s' % op)
 
     # -- string operations that may need symbolic reasoning ---------------------------------------
@@ -1180,7 +1180,7 @@ class Interp:
                 pv.append(('val', self.expand_part(p, quoted=False)))
         if len(pv) == 2 and pv[0] == ('pat', '*') and pv[1][0] == 'val' and isinstance(pv[1][1], str) and len(pv[1][1]) == 1:
             c = pv[1][1]
-            if c in '*?[\\':
+            if c in '*?[\\' and pattern_word[1][1][0] not in ('dq', 'sq'):
                 raise Unsupported('word-break character %r is a glob character' % c)
             if isinstance(base, str):
                 j = base.rfind(c)
@@ -1206,8 +1206,16 @@ class Interp:
         self.sites.add(what)
         return pat
 
-    def remove_suffix(self, base, pat):
-        pat = self.literal_pattern(pat, '${x%pat}')
+    def pattern_value(self, w):
+        """-> (value, quoted): quoted = every part of the pattern word is quoted, i.e. it is literal text"""
+        quoted = bool(w[1]) and all(p[0] in ('dq', 'sq') for p in w[1])
+        return self.expand_one(w), quoted
+
+    def remove_suffix(self, base, pat, quoted=False):
+        if not quoted:
+            pat = self.literal_pattern(pat, '${x%pat}')
+        elif isinstance(pat, (Quoted, SymLen)):
+            raise Unsupported('marker in quoted pattern')
         if isinstance(base, str) and isinstance(pat, str):
             if pat == '':
                 return base
@@ -1218,8 +1226,11 @@ class Interp:
             return self.from_chars(bc[:len(bc) - len(pc)])
         return base
 
-    def remove_prefix(self, base, pat):
-        pat = self.literal_pattern(pat, '${x#pat}')
+    def remove_prefix(self, base, pat, quoted=False):
+        if not quoted:
+            pat = self.literal_pattern(pat, '${x#pat}')
+        elif isinstance(pat, (Quoted, SymLen)):
+            raise Unsupported('marker in quoted pattern')
         if isinstance(base, str) and isinstance(pat, str):
             return base[len(pat):] if base.startswith(pat) else base
         asg = self.concretize(base, pat)
